@@ -87,4 +87,12 @@ example : (view (runSession chCfg none { s := chInit, ls := [], nw := 0 } chSess
 /-- the garbage collection really ran in that session: the dead listener is no longer registered -/
 example : ((runSession chCfg none { s := chInit, ls := [], nw := 0 } chSession).ls.map (·.id)) = [2, 3] := by rfl
 
+/-- the statement of `C04_send_churn` is sharp: a `collect` that swaps in the listeners the delivery
+loop found active (`sendSwap`, not the code) loses the subscriber that registered during the `Send` —
+the eager bus keeps it -/
+example :
+    view (sendSwap (fun n : Nat => n + 1) [{ id := 1, alive := false, st := 0 }] [.listen 2 7]) = [] ∧
+    view (send (fun n : Nat => n + 1) [{ id := 1, alive := false, st := 0 }] [.listen 2 7]) = [(2, 7)] := by
+  constructor <;> rfl
+
 end ScVerif.C04
